@@ -6,6 +6,8 @@ package json
 import (
 	"bytes"
 	"io"
+	"reflect"
+	"unicode/utf8"
 
 	"github.com/aptpod/iscp-go/encoding"
 	"github.com/aptpod/iscp-go/encoding/convert"
@@ -54,6 +56,10 @@ func (e *encoder) EncodeTo(wr io.Writer, m message.Message) (n int, er error) {
 	}
 	// defer convert.FreeMessage(pb)
 
+	// JSON text cannot carry a string that is not valid UTF-8 (the marshaller would silently rewrite it)
+	if hasInvalidUTF8(reflect.ValueOf(pb)) {
+		return 0, errors.Errorf("a string field is not valid UTF-8: %w", errors.ErrMalformedMessage)
+	}
 	var buf bytes.Buffer
 	if err := marshaler.Marshal(&buf, pb); err != nil {
 		return 0, err
@@ -65,6 +71,38 @@ func (e *encoder) EncodeTo(wr io.Writer, m message.Message) (n int, er error) {
 	}
 
 	return writtenBytes, nil
+}
+
+// hasInvalidUTF8 reports whether some string (field, element, map key or value) of the message is not valid UTF-8.
+func hasInvalidUTF8(v reflect.Value) bool {
+	switch v.Kind() {
+	case reflect.String:
+		return !utf8.ValidString(v.String())
+	case reflect.Pointer, reflect.Interface:
+		return !v.IsNil() && hasInvalidUTF8(v.Elem())
+	case reflect.Struct:
+		for i := 0; i < v.NumField(); i++ {
+			if hasInvalidUTF8(v.Field(i)) {
+				return true
+			}
+		}
+	case reflect.Slice, reflect.Array:
+		if v.Type().Elem().Kind() == reflect.Uint8 {
+			return false // bytes
+		}
+		for i := 0; i < v.Len(); i++ {
+			if hasInvalidUTF8(v.Index(i)) {
+				return true
+			}
+		}
+	case reflect.Map:
+		for it := v.MapRange(); it.Next(); {
+			if hasInvalidUTF8(it.Key()) || hasInvalidUTF8(it.Value()) {
+				return true
+			}
+		}
+	}
+	return false
 }
 
 func (e *encoder) DecodeFrom(rd io.Reader) (n int, m message.Message, er error) {
